@@ -20,8 +20,15 @@ pub fn install_panic_hook() {
             "<non-string panic>".to_string()
         };
         let loc = info.location().map(|l| format!("{}:{}", l.file(), l.line())).unwrap_or_default();
+        if std::env::var("VERIF_DEBUG_BT").is_ok() && msg.contains("ExecutionState") {
+            eprintln!("PANIC {} @ {}\n{}", msg, loc, std::backtrace::Backtrace::force_capture());
+        }
         LAST_PANIC.with(|p| *p.borrow_mut() = format!("{} @ {}", msg, loc));
     }));
+}
+
+pub fn last_panic() -> String {
+    LAST_PANIC.with(|p| p.borrow().clone())
 }
 
 #[derive(Clone, Debug, PartialEq)]
